@@ -64,7 +64,7 @@ def run(chk):
         ncases += len(res4.cases)
     # 3. randomly larger graphs: the same machine on given configurations
     d = rundir(chk.pid, "given_in")
-    given = random_graphs(chk.seed, 3000 if chk.thorough else 400)
+    given = random_graphs(chk.seed, 10000 if chk.thorough else 400)
     gp = os.path.join(d, "cases.json")
     with open(gp, "w") as f:
         json.dump(given, f)
